@@ -24,6 +24,9 @@ def pround (x : Rat) : Int :=
 @[inline] def plt (x y : Rat) : Bool := decide (x < y)
 @[inline] def ple (x y : Rat) : Bool := decide (x ≤ y)
 
+/-- `math.fsum(l)`: the exactly rounded sum; exact in ℚ. -/
+def pfsum (l : List Rat) : Rat := l.foldl (· + ·) 0
+
 def pshow (x : Rat) : String := s!"{x.num}/{x.den}"
 
 end Pymeeus.PQ
